@@ -9,7 +9,10 @@ out = ["# Seeded changes", "",
 "change, the demonstration fails with the change and passes without it. None of them is committed in /repo.", "",
 "Round 1 (`C??-<name>`) asked for any subtle violation; round 2 (`C??-r2-<name>`) asked for one that needs a history or a",
 "schedule and a site that is not the obvious one. Round-2 agents that arrived at the same change as round 1 (C03, C06,",
-"C07, C08) are not stored twice.", "",
+"C07, C08) are not stored twice. Round 3 (`C??-r3-<name>`) preferred a file outside the property's listed code locations or",
+"an error / slow path. Round 4 (`C??-r4-<name>`) named, per property, one clause of the statement that no earlier change",
+"was aimed at (`tools/seedprompts.py clause:a`). A change that an agent of a later round made again is not stored twice;",
+"`also_produced_for` in the meta.json of the stored one records it.", "",
 "Files: `patch.diff` (the change), `demo/` (the agent's demonstration test, to be copied over a worktree that has the",
 "patch applied), `meta.json` (summary, what the change needs to manifest, how it was verified, which check reports it).", "",
 "To run a check against one: `git -C /repo apply /verif/seeded/<dir>/patch.diff; ./check <ID>; git -C /repo checkout -- .`",
